@@ -262,6 +262,8 @@ fn sem_chunks<N: ArrayLength>() -> Option<String> {
             if r.as_ref().ok() != Some(&(l / n, l % n)) { return Some(format!("chunks_from_slice::<(), U{n}> on {l} zero-sized elements: {:?}", r.ok())); }
             let r = catch_unwind(AssertUnwindSafe(|| { let (c, r) = GenericArray::<(), N>::chunks_from_slice_mut(&mut z); (c.len(), r.len()) }));
             if r.as_ref().ok() != Some(&(l / n, l % n)) { return Some(format!("chunks_from_slice_mut::<(), U{n}> on {l} zero-sized elements: {:?} (None = panicked)", r.ok())); }
+            let r = catch_unwind(AssertUnwindSafe(|| { let (c, _) = GenericArray::<(), N>::chunks_from_slice(&z); (GenericArray::<(), N>::slice_from_chunks(c).len(), c.len()) }));
+            match r { Ok((fl, cl)) => if fl != cl * n { return Some(format!("slice_from_chunks::<(), U{n}>: {fl} elements from {cl} chunks")); }, Err(_) => return Some(format!("slice_from_chunks::<(), U{n}> panics on {l} zero-sized elements")) }
         }
         let base = raw.as_ptr() as usize;
         {
